@@ -65,10 +65,10 @@ _FS = dict(build_id='fixed_string', engine='xstate', technique='explicit-state m
     harness=['harness/c10_fixed_string.cpp'] + [dict(src='harness/c10_fixed_string.cpp', tag='L%d' % l, defs=['-DVF_CAP=%d' % l, '-DVF_THIN=%d' % t])
                                                 for l, t in ((1, 0), (2, 0), (3, 0), (4, 0), (5, 0), (7, 1), (255, 1), (256, 1))], flags='asanrec', lib=False, level='model_checking', extra_ldflags=['-ldl'],
     deadline={'quick': 150, 'thorough': 1800}, hang_s=60, quiet_stderr=True,
-    bound={'quick': 'capacities L=1,2,3: full operation alphabet, positions/counts {0..L+2, 2L+3, SIZE_MAX/2, npos-2, npos-1, npos}, sources = all strings over {a,b} up to L+2 as const char*/std::string/FixedString<L-1|L|L+2>; state set closed (fixed point)',
-           'thorough': 'quick + L=4 (full alphabet) + L=5,7,255,256 (thinned argument domains around 0,1,L-1,L,L+1 and the length-type boundary)'},
+    bound={'quick': 'capacities L=1,2,3,4: full operation alphabet, positions/counts {0..L+2, 2L+3, SIZE_MAX/2, npos-2, npos-1, npos}, sources = all strings over {a,b} up to L+2 as const char*/std::string/FixedString<L-1|L|L+2>; state set closed (fixed point)',
+           'thorough': 'quick + L=5 (full alphabet) + L=7,255,256 (thinned argument domains around 0,1,L-1,L,L+1 and the length-type boundary)'},
 )
-CHECKS['C10'] = dict(_FS, level_text='all operation sequences over the alphabet for capacities 1..3 (quick) / up to 7, 255, 256 (thorough): the reachable state set closes, every transition is checked for memory safety and well-formedness', title='Fixed-capacity string never touches memory outside itself and stays well-formed',
+CHECKS['C10'] = dict(_FS, level_text='all operation sequences over the alphabet for capacities 1..4 (quick) / up to 7, 255, 256 (thorough): the reachable state set closes, every transition is checked for memory safety and well-formedness', title='Fixed-capacity string never touches memory outside itself and stays well-formed',
     worker_args=['--opt', 'prop=C10'],
     rule='explicit-state search: state = byte image of a real FixedString<L>; transition = one public operation with one argument tuple (ALL tuples, in and out of the documented domain); '
          'oracle after every transition: no AddressSanitizer report (object between poisoned guard zones, exact-size sources), length<=capacity, NUL at length, strlen==length; '
@@ -222,7 +222,7 @@ _SCHED = dict(engine='xsched', flags='tsanabi', level='model_checking', extra_so
     technique='stateless model checking of the real threads: cooperative scheduler over compiler-reported accesses (own TSan-ABI runtime), all schedules up to a preemption bound by depth-first re-execution in fresh processes, vector-clock data-race detection on every explored schedule; the detector is cross-checked by a free-running pass of the same bodies under the real ThreadSanitizer')
 CHECKS['C20'] = dict(_SCHED, title='Concurrency helpers keep their contract under every schedule', harness=['harness/c20_helpers.cpp'], lib=False,
     also_build=[dict(name='free', build_id='C20free', harness=['harness/c20_helpers.cpp'], flags='tsan', lib=False)], deadline={'quick': 240, 'thorough': 2400},
-    level_text='5 scenarios (2 and 3 threads racing for the first Singleton access, one thread accessing twice; ManagedThread sampled by its creator and by a third thread): every schedule with <= 2-3 (quick) / 3-5 (thorough) preemptions is executed on the real code in a fresh process; per schedule: constructed once, same object, active while provably running, inactive after join, no data race, no deadlock',
+    level_text='6 scenarios (2 and 3 threads racing for the first Singleton access, one thread accessing twice; ManagedThread sampled by its creator and by a third thread, and with a thread function that finishes at once): every schedule with <= 2-3 (quick) / 3-5 (thorough) preemptions is executed on the real code in a fresh process; per schedule: constructed once, same object, active while provably running, inactive after join, no data race, no deadlock',
     level_note='scheduling points = every synchronisation operation + every access to a static-storage location shared by two threads (learned, reported); sequentially consistent scheduler: behaviours that need weaker orderings than data-race freedom + SC are outside; libstdc++/libc internals are trusted',
     rule='schedule = sequence of choices at scheduling points (DFS with preemption bound, CHESS style); states = executions (complete schedules), transitions = scheduling points passed, traces = executions of the real code; non-trivial = executions with a context switch at a shared location',
     bound={'quick': 'preemption bound 2 (singleton scenarios, observer) / 3 (managed)', 'thorough': 'preemption bound 4/3/3 (singleton) and 5/3 (managed)'},
